@@ -73,7 +73,15 @@ def check(ctx):
         names = ['p%d' % i for i in range(d)]
         n0 = rng.randint(6, 20)
         X, y = evidence(rng, d, n0, bounds)
-        gp = GPyRegression(names, bounds=dict(zip(names, bounds)), max_opt_iters=rng.choice([10, 40]))
+        items = list(zip(names, bounds))
+        if rng.random() < .5 or it in (1, 4):
+            items = items[::-1]                      # the bounds dictionary written in another order than the parameter names
+        gp = GPyRegression(names, bounds=dict(items), max_opt_iters=rng.choice([10, 40]))
+        if [tuple(b) for b in gp.bounds] != [tuple(b) for b in bounds]:
+            ctx.case(dict(dim=d, bounds=bounds, dict_order=[k for k, _ in items]), True)
+            ctx.fail_input(dict(dim=d, bounds=bounds, dict_order=[k for k, _ in items]), 'the surrogate pairs the parameters %s with the bounds %s, declared were %s'
+                           % (names, [tuple(b) for b in gp.bounds], dict(items)))
+            continue
         first_opt = rng.random() < .7
         phases = ['sample'] + [rng.choice(['sample', 'fit', 'update', 'update-opt', 'optimize']) for _ in range(rng.randint(1, 4))] + ['sample']
         # every run starts with the three shortest histories that change the surrogate BETWEEN two sampling phases without a
